@@ -187,7 +187,8 @@ HARNESSES["compdec"]["build"] = _cp.build_composite
 
 def configs(tier, seed):
     out = []
-    for what, table in (("request", _cp.COMPOSITES), ("response", _cp.RESPONSES)):
+    for what, table in (("request", _cp.COMPOSITES),
+                        ("response", {**_cp.RESPONSES, **_cp.DECODE_ONLY_RESPONSES})):
         for name in table:
             for n in range(0, (7 if tier == "quick" else 10)):
                 if tier == "quick" and name == "dynlen-field-varitem" and n > 4:
